@@ -2,6 +2,8 @@ package main
 
 import (
 	"fmt"
+	"net"
+	"time"
 	"sort"
 	"strings"
 
@@ -51,7 +53,15 @@ func pickSome(r *rng, xs []string, min int) []string {
 func genReconf(r *rng) *config.PikeConfig {
 	c := &config.PikeConfig{}
 	for _, n := range pickSome(r, rcCompress, 0) {
-		c.Compresses = append(c.Compresses, config.CompressConfig{Name: n, Levels: map[string]uint{"gzip": uint(1 + r.intn(9)), "br": uint(1 + r.intn(11))}})
+		// either level may be left out of a profile: the codec then runs at its library default
+		lv := map[string]uint{}
+		if r.chance(70) {
+			lv["gzip"] = uint(1 + r.intn(9))
+		}
+		if r.chance(70) {
+			lv["br"] = uint(1 + r.intn(11))
+		}
+		c.Compresses = append(c.Compresses, config.CompressConfig{Name: n, Levels: lv})
 	}
 	for _, n := range pickSome(r, rcCaches, 1) {
 		c.Caches = append(c.Caches, config.CacheConfig{Name: n, Size: 10 + r.intn(90), HitForPass: r.pick([]string{"5m", "30s"})})
@@ -97,7 +107,13 @@ func encReconf(c *config.PikeConfig) string {
 	}
 	var comp, caches, ups, locs, srvs []string
 	for _, x := range c.Compresses {
-		comp = append(comp, fmt.Sprintf("%s|%d|%d", hx(x.Name), x.Levels["gzip"], x.Levels["br"]))
+		lvl := func(k string) string {
+			if v, ok := x.Levels[k]; ok {
+				return fmt.Sprintf("%d", v)
+			}
+			return "x" // not configured
+		}
+		comp = append(comp, fmt.Sprintf("%s|%s|%s", hx(x.Name), lvl("gzip"), lvl("br")))
 	}
 	for _, x := range c.Caches {
 		caches = append(caches, fmt.Sprintf("%s|%d", hx(x.Name), x.Size))
@@ -209,4 +225,72 @@ func suiteReconf(r *rng, n int) {
 		emit("reconf", "end")
 	}
 	applyLikeMainUpdate(&config.PikeConfig{})
+	reconfListen()
+	applyLikeMainUpdate(&config.PikeConfig{})
+}
+
+func freeAddr() string {
+	ln, err := net.Listen("tcp", "127.0.0.1:0")
+	if err != nil {
+		return "127.0.0.1:0"
+	}
+	defer ln.Close()
+	return ln.Addr().String()
+}
+
+func accepts(addr string) string {
+	c, err := net.DialTimeout("tcp", addr, 500*time.Millisecond)
+	if err != nil {
+		return "0"
+	}
+	c.Close()
+	return "1"
+}
+
+// directed history with REAL listeners: four servers are started, one update removes three of them at once
+// and adds one; after the graceful-close period the removed ones must refuse connections, the kept and the
+// added one must accept them (what a fresh start with the final configuration would show)
+func reconfListen() {
+	base := config.PikeConfig{
+		Caches:    []config.CacheConfig{{Name: "c1", Size: 10}},
+		Upstreams: []config.UpstreamConfig{{Name: "u1", Servers: []config.UpstreamServerConfig{{Addr: "http://127.0.0.1:1"}}}},
+		Locations: []config.LocationConfig{{Name: "l1", Upstream: "u1"}},
+	}
+	var addrs []string
+	for i := 0; i < 5; i++ {
+		addrs = append(addrs, freeAddr())
+	}
+	mk := func(as []string) *config.PikeConfig {
+		c := base
+		for _, a := range as {
+			c.Servers = append(c.Servers, config.ServerConfig{Addr: a, Cache: "c1", Locations: []string{"l1"}})
+		}
+		return &c
+	}
+	applyLikeMainUpdate(mk(addrs[:4]))
+	_ = server.Start()
+	// poll (bounded) until the listeners show the configured picture: start-up and the 10 s graceful close run
+	// in goroutines of their own, and the machine may be busy
+	observe := func(want string, limit time.Duration) string {
+		deadline := time.Now().Add(limit)
+		for {
+			got := ""
+			for _, a := range addrs {
+				got += accepts(a)
+			}
+			if got == want || time.Now().After(deadline) {
+				return got
+			}
+			time.Sleep(200 * time.Millisecond)
+		}
+	}
+	before := observe("11110", 5*time.Second)
+	final := []string{addrs[0], addrs[4]}
+	applyLikeMainUpdate(mk(final))
+	_ = server.Start()
+	time.Sleep(10500 * time.Millisecond) // GracefulClose(10s) of the removed servers
+	after := observe("10001", 8*time.Second)
+	// configured before: 11110, configured after: 10001
+	emit("reconf", "listen", "11110", before, "10001", after)
+	stat("listen-histories")
 }
